@@ -92,10 +92,12 @@ func c17Sweeps(tier string) []sweep {
 // dispatch only uses the best-matching one.
 func f10(p *rm.Parsed, path string, r rm.Router, observed, expected []string) bool {
 	union := map[string]bool{}
+	claiming := 0
 	for si := range p.T.Svcs {
 		if !rm.Claims(p.Roots[si], path, r) {
 			continue
 		}
+		claiming++
 		for ri, rt := range p.T.Svcs[si].Routes {
 			if ok, _ := rm.PathMatches(p.Full[si][ri], path, r); ok {
 				union[rt.Method] = true
@@ -107,7 +109,8 @@ func f10(p *rm.Parsed, path string, r rm.Router, observed, expected []string) bo
 		u = append(u, m)
 	}
 	u = h.SortedCopy(u)
-	return h.EqStrs(observed, u) && !h.EqStrs(observed, expected)
+	// the finding needs two services whose roots both claim the URL
+	return claiming >= 2 && h.EqStrs(observed, u) && !h.EqStrs(observed, expected)
 }
 
 type c17Result struct {
@@ -281,7 +284,7 @@ func checkC17(run *h.Run) {
 							for _, res := range judgeURL(p, path, router, c17Methods, pl, fl, hd) {
 								rc := routingCase{Sweep: sp.Name, Router: router.String(), Table: t, Req: w.reqs[base]}
 								base := base
-								run.Violate("allow-mismatch-after-route-removal/"+router.String(), res.finding, fmt.Sprintf("[%s] %v, OPTIONS served, then the route removed : %s", router, t, res.why), rc, func() bool {
+								run.Violate("allow-mismatch-after-route-removal/"+router.String(), "", fmt.Sprintf("[%s] %v, OPTIONS served, then the route removed : %s", router, t, res.why), rc, func() bool {
 									pl, fl, hd, ok := c17AfterRemoval(t, router, w.reqs[base], c17Methods)
 									return ok && len(judgeURL(p, path, router, c17Methods, pl, fl, hd)) > 0
 								})
